@@ -408,14 +408,8 @@ func (d *Decl) instantiate(g *Grp, cmd *Cmd, sv reflect.Value, log *CallLog, lat
 		f := sv.Field(sg.idx)
 		if sg.Ptr {
 			if f.IsNil() {
-				if !late {
-					continue // resolved after the parser has been built (go-flags allocates it)
-				}
-				sg.val = reflect.Value{}
-				for _, o := range allOptsOf(sg) {
-					o.Val = reflect.Value{}
-				}
-				continue
+				// pointer groups are allocated by the program before the parser is built
+				f.Set(reflect.New(f.Type().Elem()))
 			}
 			d.instantiate(sg, nil, f.Elem(), log, late)
 		} else {
@@ -535,6 +529,7 @@ func (d *Decl) Build() *Built {
 		p.EnvNamespaceDelimiter = d.EnvDelim
 	}
 	b.P = p
+	p.SubcommandsOptional = root.SubOptional
 	root.FC = p.Command
 	d.attach(b, root, log)
 	// resolve pointer groups that go-flags allocated, and flags.Group handles
